@@ -72,7 +72,7 @@ Proof.
     destruct (dd >? 0) eqn:Edd.
     + destruct u. pose proof H3 as H3'. apply add_delay_sx in H3; auto.
       apply add_delay_ok in H3'.
-      destruct H3' as (c1 & lst1 & rest1 & d' & k & Hc1 & Hs1 & Hv & Hc3).
+      destruct H3' as (c1 & lst1 & rest1 & d' & k & Hc1 & Hs1 & Hv & Hc3 & _).
       rewrite Hc in Hc1. inv Hc1. rewrite Hs in Hs1. inv Hs1.
       destruct Hdd as [->|[Hm Hcl]]; [lia|].
       apply validate_duration_fixed in Hv; auto. subst d'.
